@@ -116,6 +116,11 @@ theorem stepOwn_g (c : Cfg) (g : Int) (x : Inst) (r : Req) (h : r.noSetting = tr
     | none => exact applySetting_none c g x.knob
   | _ => rfl
 
+/-- with the good mechanism, or without an adapter, looking an id up touches nobody -/
+theorem preRestore_id (c : Cfg) (s : Server) (op : Nat × Req) (h : c.restoreOnlyAddressed = true ∨ s.ad = false) :
+    preRestore c s op = s := by
+  rcases h with h | h <;> simp [preRestore, h]
+
 theorem stepNone_frame (s : Server) (i : Nat) (r : Req) :
     (stepNone s i r).1.g = s.g ∧ (stepNone s i r).1.ad = s.ad ∧ (stepNone s i r).1.own = s.own ∧
     ∀ j, j ≠ i → (stepNone s i r).1.insts j = s.insts j := by
@@ -127,9 +132,11 @@ theorem stepNone_local (s s' : Server) (i : Nat) (r : Req) (h : s.insts i = s'.i
   cases r <;> simp [stepNone, updFn, h]
 
 /-- a request leaves every other owner's part of the server alone, and never changes whether an adapter exists -/
-theorem step_other (c : Cfg) (s : Server) (op : Nat × Req) (t : Option Nat) (h : owner op ≠ t) :
+theorem step_other (c : Cfg) (s : Server) (op : Nat × Req) (t : Option Nat) (h : owner op ≠ t)
+    (hR : c.restoreOnlyAddressed = true ∨ s.ad = false) :
     comp t (step c s op).1 = comp t s ∧ (step c s op).1.ad = s.ad := by
   unfold step
+  simp only [preRestore_id c s op hR]
   by_cases hs : op.2.serverLevel = true
   · simp only [hs, if_true]
     refine ⟨?_, by first | rfl | trivial⟩
@@ -161,10 +168,12 @@ theorem step_other (c : Cfg) (s : Server) (op : Nat × Req) (t : Option Nat) (h 
 server (plus the shared cell when something is shared). -/
 theorem step_local (c : Cfg) (s s' : Server) (op : Nat × Req)
     (hc : comp (owner op) s = comp (owner op) s') (had : s.ad = s'.ad)
-    (hg : c.instancesShareNothing = true ∨ s.g = s'.g) :
+    (hg : c.instancesShareNothing = true ∨ s.g = s'.g) (hR : c.restoreOnlyAddressed = true ∨ s.ad = false) :
     (step c s op).2 = (step c s' op).2 ∧ comp (owner op) (step c s op).1 = comp (owner op) (step c s' op).1 ∧
     (c.instancesShareNothing = true ∨ (step c s op).1.g = (step c s' op).1.g) := by
+  have hR' : c.restoreOnlyAddressed = true ∨ s'.ad = false := by rw [← had]; exact hR
   unfold step
+  simp only [preRestore_id c s op hR, preRestore_id c s' op hR']
   by_cases hs : op.2.serverLevel = true
   · simp only [hs, if_true]
     have ho : owner op = none := by simp [owner, hs]
@@ -201,6 +210,7 @@ theorem step_local (c : Cfg) (s s' : Server) (op : Nat × Req)
 theorem step_g (c : Cfg) (s : Server) (op : Nat × Req) (had : s.ad = false) (h : op.2.noSetting = true) :
     (step c s op).1.g = s.g := by
   unfold step
+  simp only [preRestore_id c s op (Or.inr had)]
   by_cases hs : op.2.serverLevel = true
   · simp only [hs, if_true]; exact stepOwn_g c s.g s.own op.2 h
   · simp only [hs]
@@ -208,18 +218,37 @@ theorem step_g (c : Cfg) (s : Server) (op : Nat × Req) (had : s.ad = false) (h 
     | none => simp only [Bool.false_eq_true, if_false]; exact (stepNone_frame s op.1 op.2).1
     | some x => simp only [Bool.false_eq_true, if_false, had]; exact stepInst_g c s.g x op.2 h
 
+/-- with nothing shared no request writes the shared cell -/
+theorem step_keeps_g (c : Cfg) (h : c.instancesShareNothing = true) (s : Server) (op : Nat × Req)
+    (hR : c.restoreOnlyAddressed = true ∨ s.ad = false) : (step c s op).1.g = s.g := by
+  unfold step
+  simp only [preRestore_id c s op hR]
+  by_cases hs : op.2.serverLevel = true
+  · simp only [hs, if_true]; exact stepOwn_keeps_g c h s.g s.own op.2
+  · simp only [hs]
+    cases hx : s.insts op.1 with
+    | none => simp only [Bool.false_eq_true, if_false]; exact (stepNone_frame s op.1 op.2).1
+    | some x => simp only [Bool.false_eq_true, if_false]; exact stepInst_keeps_g c h s.ad s.g x op.2
+
 /-- the generalised commutation lemma: two servers that agree on owner `t`'s part (and, when something is
 shared, on the shared cell) answer `t`'s requests alike, whatever is addressed to the others in between. -/
 theorem proj_resps (c : Cfg) (t : Option Nat) (ops : List (Nat × Req))
-    (hops : c.instancesShareNothing = true ∨ ∀ op ∈ ops, owner op ≠ t → op.2.noSetting = true) :
+    (hops : (c.instancesShareNothing = true ∧ c.restoreOnlyAddressed = true) ∨
+      ∀ op ∈ ops, owner op ≠ t → op.2.noSetting = true) :
     ∀ (s s' : Server), comp t s = comp t s' → s.ad = s'.ad →
-      (c.instancesShareNothing = true ∨ (s.g = s'.g ∧ s.ad = false)) →
+      ((c.instancesShareNothing = true ∧ c.restoreOnlyAddressed = true) ∨ (s.g = s'.g ∧ s.ad = false)) →
       respsOf t (resps c s ops) = respsOf t (resps c s' (proj t ops)) := by
   induction ops with
   | nil => intro s s' _ _ _; rfl
   | cons op rest ih =>
     intro s s' hi had hg
-    have hrest : c.instancesShareNothing = true ∨ ∀ op ∈ rest, owner op ≠ t → op.2.noSetting = true := by
+    have hR : c.restoreOnlyAddressed = true ∨ s.ad = false := by
+      rcases hg with h | h
+      · exact Or.inl h.2
+      · exact Or.inr h.2
+    have hR' : c.restoreOnlyAddressed = true ∨ s'.ad = false := by rw [← had]; exact hR
+    have hrest : (c.instancesShareNothing = true ∧ c.restoreOnlyAddressed = true) ∨
+        ∀ op ∈ rest, owner op ≠ t → op.2.noSetting = true := by
       rcases hops with h | h
       · exact Or.inl h
       · exact Or.inr (fun o ho => h o (List.mem_cons_of_mem _ ho))
@@ -231,27 +260,28 @@ theorem proj_resps (c : Cfg) (t : Option Nat) (ops : List (Nat × Req))
       subst hop
       have hg' : c.instancesShareNothing = true ∨ s.g = s'.g := by
         rcases hg with h | h
-        · exact Or.inl h
+        · exact Or.inl h.1
         · exact Or.inr h.1
-      obtain ⟨h1, h2, h3⟩ := step_local c s s' op hi had hg'
+      obtain ⟨h1, h2, h3⟩ := step_local c s s' op hi had hg' hR
       rw [h1]
       congr 1
       have a1 := (step_other c s op (some (op.1 + 1)) (by
-        simp only [owner]; split <;> simp)).2
+        simp only [owner]; split <;> simp) hR).2
       have a2 := (step_other c s' op (some (op.1 + 1)) (by
-        simp only [owner]; split <;> simp)).2
+        simp only [owner]; split <;> simp) hR').2
       apply ih hrest _ _ h2 (by rw [a1, a2, had])
       rcases hg with h | h
       · exact Or.inl h
       · rcases h3 with h3 | h3
-        · exact Or.inl h3
+        · exact Or.inr ⟨by rw [step_keeps_g c h3 s op hR, step_keeps_g c h3 s' op hR']; exact h.1,
+            by rw [a1]; exact h.2⟩
         · exact Or.inr ⟨h3, by rw [a1]; exact h.2⟩
     · -- another owner's request: dropped by the projection; `t`'s part is untouched
       have hp : proj t (op :: rest) = proj t rest := by simp [proj, hop]
       rw [hp]
       have hb : (owner op == t) = false := by simpa using hop
       simp only [resps, respsOf, List.filter_cons, hb]
-      have ho := step_other c s op t hop
+      have ho := step_other c s op t hop hR
       apply ih hrest
       · rw [ho.1]; exact hi
       · rw [ho.2]; exact had
@@ -262,9 +292,10 @@ theorem proj_resps (c : Cfg) (t : Option Nat) (ops : List (Nat × Req))
           · refine Or.inr ⟨?_, by rw [ho.2]; exact hg.2⟩
             rw [step_g c s op hg.2 (h op List.mem_cons_self hop)]; exact hg.1
 
-theorem C16_full_of_good (c : Cfg) (h : c.instancesShareNothing = true) : C16_full c := by
+theorem C16_full_of_good (c : Cfg) (h : c.instancesShareNothing = true) (hr : c.restoreOnlyAddressed = true) :
+    C16_full c := by
   intro k ad ops t
-  exact proj_resps c t ops (Or.inl h) _ _ rfl rfl (Or.inl h)
+  exact proj_resps c t ops (Or.inl ⟨h, hr⟩) _ _ rfl rfl (Or.inl ⟨h, hr⟩)
 
 /-- Whatever the factory shares (no adapter configured): an owner is unaffected by everything addressed to the
 others that carries no setting — instances created, sessions begun and ended, steps without settings, results,
@@ -286,30 +317,31 @@ theorem C16_stop_timeout_local (c : Cfg) (k : Nat) (ops : List (Nat × Req)) (t 
 order, and both orders leave every owner's part of the server, the shared cell and the adapter flag the same.
 (Request-handler granularity: what two handlers running concurrently for different instances may do, as long as
 each handler is atomic, equals the sequential result in either order.) -/
-theorem C16_commute (c : Cfg) (h : c.instancesShareNothing = true) (s : Server) (a b : Nat × Req)
+theorem C16_commute (c : Cfg) (h : c.instancesShareNothing = true) (hr : c.restoreOnlyAddressed = true)
+    (s : Server) (a b : Nat × Req)
     (hab : owner a ≠ owner b) :
     (step c (step c s b).1 a).2 = (step c s a).2 ∧
     (step c (step c s a).1 b).2 = (step c s b).2 ∧
     (∀ t, comp t (step c (step c s a).1 b).1 = comp t (step c (step c s b).1 a).1) ∧
     (step c (step c s a).1 b).1.ad = (step c (step c s b).1 a).1.ad := by
-  have ob := step_other c s b (owner a) (Ne.symm hab)
-  have oa := step_other c s a (owner b) hab
-  have la := step_local c (step c s b).1 s a ob.1 ob.2 (Or.inl h)
-  have lb := step_local c (step c s a).1 s b oa.1 oa.2 (Or.inl h)
+  have ob := step_other c s b (owner a) (Ne.symm hab) (Or.inl hr)
+  have oa := step_other c s a (owner b) hab (Or.inl hr)
+  have la := step_local c (step c s b).1 s a ob.1 ob.2 (Or.inl h) (Or.inl hr)
+  have lb := step_local c (step c s a).1 s b oa.1 oa.2 (Or.inl h) (Or.inl hr)
   refine ⟨la.1, lb.1, ?_, ?_⟩
   · intro t
     by_cases ha : owner a = t
     · subst ha
-      rw [(step_other c (step c s a).1 b (owner a) (Ne.symm hab)).1, la.2.1]
+      rw [(step_other c (step c s a).1 b (owner a) (Ne.symm hab) (Or.inl hr)).1, la.2.1]
     · by_cases hb : owner b = t
       · subst hb
-        rw [(step_other c (step c s b).1 a (owner b) hab).1, lb.2.1]
-      · rw [(step_other c (step c s a).1 b t hb).1, (step_other c s a t ha).1,
-            (step_other c (step c s b).1 a t ha).1, (step_other c s b t hb).1]
-  · rw [(step_other c (step c s a).1 b (some (b.1 + a.1 + 1)) (by simp only [owner]; split <;> simp <;> omega)).2,
-        (step_other c s a (some (b.1 + a.1 + 1)) (by simp only [owner]; split <;> simp <;> omega)).2,
-        (step_other c (step c s b).1 a (some (b.1 + a.1 + 1)) (by simp only [owner]; split <;> simp <;> omega)).2,
-        (step_other c s b (some (b.1 + a.1 + 1)) (by simp only [owner]; split <;> simp <;> omega)).2]
+        rw [(step_other c (step c s b).1 a (owner b) hab (Or.inl hr)).1, lb.2.1]
+      · rw [(step_other c (step c s a).1 b t hb (Or.inl hr)).1, (step_other c s a t ha (Or.inl hr)).1,
+            (step_other c (step c s b).1 a t ha (Or.inl hr)).1, (step_other c s b t hb (Or.inl hr)).1]
+  · rw [(step_other c (step c s a).1 b (some (b.1 + a.1 + 1)) (by simp only [owner]; split <;> simp <;> omega) (Or.inl hr)).2,
+        (step_other c s a (some (b.1 + a.1 + 1)) (by simp only [owner]; split <;> simp <;> omega) (Or.inl hr)).2,
+        (step_other c (step c s b).1 a (some (b.1 + a.1 + 1)) (by simp only [owner]; split <;> simp <;> omega) (Or.inl hr)).2,
+        (step_other c s b (some (b.1 + a.1 + 1)) (by simp only [owner]; split <;> simp <;> omega) (Or.inl hr)).2]
 
 /-- Negation witness for a factory whose products share a cell: a setting applied through instance 0 changes
 the step instance 1 returns. -/
@@ -317,22 +349,65 @@ theorem C16_witness_shared (c : Cfg) (h : c.instancesShareNothing = false) : ¬ 
   intro hf
   have := hf 2 false [(0, .beginSession none), (1, .beginSession none), (0, .runStep (some 5)), (1, .runStep none),
     (1, .runStep none)] (some 1)
-  cases c; simp only at h; subst h
-  revert this; decide
+  obtain ⟨a, b⟩ := c; simp only at h; subst h
+  revert this; cases b <;> decide
 
 /-- same mechanism through the begin-session settings, an instance created during the history, and the
 server-level `/run`: its settings reach the instance. -/
 theorem C16_witness_shared_run (c : Cfg) (h : c.instancesShareNothing = false) : ¬ C16_full c := by
   intro hf
   have := hf 0 true [(3, .create), (3, .beginSession (some 2)), (0, .run (some 7)), (3, .runStep none)] (some 3)
-  cases c; simp only at h; subst h
-  revert this; decide
+  obtain ⟨a, b⟩ := c; simp only at h; subst h
+  revert this; cases b <;> decide
+
+/-- an instance with an externalised session (one step), then — not externalised — the session ended and a new one
+begun with another setting; instance 0 is stopped and a late keep-alive for it arrives; instance 1 steps. -/
+def restoreOps : List (Nat × Req) :=
+  [(1, .beginSession none), (1, .runStep none), (1, .endSession), (1, .beginSession (some 5)), (0, .stop), (0, .keepAlive),
+   (1, .runStep none), (1, .results)]
+
+/-- the same with a request to an id that never existed, and a timed-out instance revived by its own request. -/
+def restoreOpsGhost : List (Nat × Req) :=
+  [(1, .beginSession none), (1, .runStep none), (1, .endSession), (7, .results), (1, .runStep none)]
+
+/-- Negation witness for the restore-everything mechanism (`restoreOnlyAddressed = false`), whatever the factory
+shares: on a server with adapter the late keep-alive for the stopped instance 0 rebuilds instance 1 from the
+store — its next step continues the OLD session (`stepped 1 …` with the old knob instead of `stepped 0 0 5`). -/
+theorem C16_witness_restore_all (c : Cfg) (h : c.restoreOnlyAddressed = false) : ¬ C16_full c := by
+  intro hf
+  have := hf 2 true restoreOps (some 1)
+  obtain ⟨a, b⟩ := c; simp only at h; subst h
+  revert this; cases a <;> decide
+
+/-- … and a request to an id that never existed does the same (instance 1 had ended its session: alone it is
+answered "no data" / save error, interleaved it steps the resurrected session). -/
+theorem C16_witness_restore_all_ghost (c : Cfg) (h : c.restoreOnlyAddressed = false) : ¬ C16_full c := by
+  intro hf
+  have := hf 2 true restoreOpsGhost (some 1)
+  obtain ⟨a, b⟩ := c; simp only at h; subst h
+  revert this; cases a <;> decide
+
+/-- "A request to an absent id touches no other instance", stated on its own: with the good mechanism (or without
+adapter) a request addressed to an id that is not in memory — never existed, stopped, timed out — leaves every other
+owner's part of the server exactly as it was, whatever the request is and whatever the store holds. -/
+theorem C16_absent_touches_nobody (c : Cfg) (s : Server) (op : Nat × Req) (t : Option Nat)
+    (hr : c.restoreOnlyAddressed = true ∨ s.ad = false) (_habs : absent s.insts op.1 = true) (ht : owner op ≠ t) :
+    comp t (step c s op).1 = comp t s :=
+  (step_other c s op t ht hr).1
+
+/-- … and with the defective mechanism it does not: a concrete server state where a keep-alive for a stopped
+instance changes another, live instance. -/
+theorem C16_absent_touches_others (c : Cfg) (h : c.restoreOnlyAddressed = false) :
+    ∃ (s : Server) (op : Nat × Req) (t : Option Nat), absent s.insts op.1 = true ∧ owner op ≠ t ∧
+      comp t (step c s op).1 ≠ comp t s := by
+  refine ⟨final c (Server.initAd 2 true) (restoreOps.take 5), (0, .keepAlive), some 1, ?_, ?_, ?_⟩
+  all_goals (obtain ⟨a, b⟩ := c; simp only at h; subst h; cases a <;> decide)
 
 /-- Non-vacuity: three instances plus one created during the history, an adapter, interleaved sessions with
 different settings (begin-session and run-step), `/run` with a setting in between, a stop, a timeout followed by
 the lazy restoration of the timed-out instance. -/
 example :
-    respsOf (some 1) (resps ⟨true⟩ (Server.initAd 3 true)
+    respsOf (some 1) (resps ⟨true, true⟩ (Server.initAd 3 true)
       [(0, .beginSession none), (1, .beginSession (some 4)), (0, .runStep (some 7)), (1, .runStep (some 2)), (2, .beginSession none),
        (5, .create), (0, .run (some 9)), (0, .runStep none), (2, .stop), (1, .runStep none), (1, .expire), (5, .beginSession (some 3)),
        (1, .results), (0, .keepAlive), (1, .runStep none), (1, .endSession), (0, .equations)])
@@ -346,5 +421,9 @@ example :
 #print axioms C16_commute
 #print axioms C16_witness_shared
 #print axioms C16_witness_shared_run
+#print axioms C16_witness_restore_all
+#print axioms C16_witness_restore_all_ghost
+#print axioms C16_absent_touches_nobody
+#print axioms C16_absent_touches_others
 
 end Bptk.C16
